@@ -4,6 +4,7 @@ import (
 	"fmt"
 	"runtime"
 	"sort"
+	"strings"
 	"sync"
 
 	"github.com/contiv/libOpenflow/common"
@@ -144,6 +145,18 @@ func c14Process(w c14Work, variant uint64) (digest uint64, perr string) {
 			}
 			buf := make([]byte, 1024)
 			n, _ := d.Read(buf)
+			add(buf[:n])
+		case "dhcp0":
+			// "pick a transaction id for me" (xid 0): the id is random, everything else must be as when built alone
+			d, err := protocol.NewDHCPRequest(0, []byte{2, 0, 0, byte(w.aux), 1, 1})
+			if err != nil {
+				break
+			}
+			buf := make([]byte, 1024)
+			n, _ := d.Read(buf)
+			if n >= 8 {
+				copy(buf[4:8], []byte{0, 0, 0, 0})
+			}
 			add(buf[:n])
 		case "registry":
 			names := []string{"NXM_NX_REG0", "NXM_NX_REG7", "NXM_NX_CT_MARK", "OXM_OF_METADATA", "NXM_NX_TUN_ID", "nxm_nx_reg3", "NXM_NX_XXREG1", "NXM_NX_CT_LABEL", "OXM_OF_ETH_DST"}
@@ -348,6 +361,11 @@ func c14Eval(c *fw.Ctx, data any) {
 		}
 	}
 
+	// ---- independence by construction: two values from the same constructor share no caller-visible memory ----
+	if c.Index%4 == 0 {
+		c14Disjoint(c)
+	}
+
 	// ---- (b) cross-talk ----
 	var work []c14Work
 	r := prng.Derive(cs.Seed, 2)
@@ -361,7 +379,11 @@ func c14Eval(c *fw.Ctx, data any) {
 		case 5:
 			work = append(work, c14Work{kind: "packet", m: pktRecipe(prng.Derive(cs.Seed, 3, uint64(k)), k)})
 		case 6:
-			work = append(work, c14Work{kind: "dhcp", aux: uint64(k)})
+			if k%16 == 6 {
+				work = append(work, c14Work{kind: "dhcp0", aux: uint64(k)})
+			} else {
+				work = append(work, c14Work{kind: "dhcp", aux: uint64(k)})
+			}
 		default:
 			work = append(work, c14Work{kind: "registry", aux: r.U64()})
 		}
@@ -419,4 +441,48 @@ func c14Eval(c *fw.Ctx, data any) {
 		c.Sample(map[string]any{"case": cs, "lowest_ids": ex, "work_units": len(work)})
 	}
 	_ = util.Message(nil)
+}
+
+// c14Disjoint builds every constructor-table value twice and requires that no slice a caller can reach through
+// exported fields has the same backing array in both: otherwise editing one message in place (h.Elements[0].Bitmaps[0] = x)
+// edits the other, which is cross-talk between independent values and a data race when they live on two goroutines.
+// Memory reachable only through unexported fields is not judged here (whether the library writes it is observed by
+// the sequential-versus-concurrent comparison, C13's interfering decodes and the race detector).
+func c14Disjoint(c *fw.Ctx) {
+	exportedPath := func(p string) bool {
+		for _, seg := range strings.Split(p, ".") {
+			if seg == "" {
+				continue
+			}
+			name := seg
+			if i := strings.Index(name, "["); i >= 0 {
+				name = name[:i]
+			}
+			if name != "" && (name[0] < 'A' || name[0] > 'Z') {
+				return false
+			}
+		}
+		return true
+	}
+	for _, e := range ctorTable {
+		fw.Recover(func() {
+			a, b := e.mk(), e.mk()
+			ra, rb := lib.Regions(a), lib.Regions(b)
+			c.Count("constructor_pairs_checked", 1)
+			for _, x := range ra {
+				if x.Size == 0 || !exportedPath(x.Path) {
+					continue
+				}
+				for _, y := range rb {
+					if y.Size == 0 || !exportedPath(y.Path) {
+						continue
+					}
+					if x.Ptr < y.Ptr+y.Size && y.Ptr < x.Ptr+x.Size {
+						c.Violation("crosstalk", "shared-memory", e.name, fmt.Sprintf("two values made by %s share the backing array of %s / %s: editing one in place changes the other", e.name, x.Path, y.Path))
+						return
+					}
+				}
+			}
+		})
+	}
 }
